@@ -211,7 +211,9 @@ def materialize(case, ev):
     spec = dict(case)
     mx = max([abs(int(x)) for r in case["m"] for x in r] + [0])
     pick = int(core_digest(case), 16) % 4
-    if pick == 1 and mx <= 32767:
+    if case.get("dtype"):
+        spec["dtype"] = case["dtype"]
+    elif pick == 1 and mx <= 32767:
         spec["dtype"] = "int16"
     elif pick == 2 and mx <= 2 ** 31 - 1:
         spec["dtype"] = "int32"
@@ -526,6 +528,68 @@ def chain_case(draw, guard=4096):
     rows = list(draw(st.permutations(rows)))
     index = list(draw(st.permutations(ROW_IDS)))[:len(rows)] if draw(st.booleans()) and len(ROW_IDS) >= len(rows) else None
     return {"m": rows, "vars": [[i, lo, hi] for i, (lo, hi) in zip(ids, bounds)], "index": index, "guard": guard}
+
+
+@st.composite
+def narrow_overflow_case(draw):
+    """a polyhedron held in int16 / int32 whose entries all fit that type, with one column forced to the far end of its range
+    by a single-variable row; moving the forced column into the support vector of another row (b - c*v) leaves the range
+    of the storage type although every given entry is inside it"""
+    dtype = draw(st.sampled_from(["int16", "int16", "int32"]))
+    T = 32767 if dtype == "int16" else 2 ** 31 - 1
+    L = draw(st.integers(2, 200))
+    neg = draw(st.booleans())
+    xb = (-L, 0) if neg else (0, L)
+    v = -L if neg else L
+    c_abs = draw(st.integers(max(1, T // (2 * L)), T // L))
+    c = c_abs if neg else -c_abs                       # c * v is negative, so b - c*v grows
+    b0 = draw(st.integers(T // 3, T))
+    n_other = draw(st.integers(1, 3))
+    ob = [draw(st.sampled_from([(0, 1), (0, 1), (0, 2), (-1, 1)])) for _ in range(n_other)]
+    big = b0 + c_abs * L
+    od = [draw(st.one_of(st.integers(1, T), st.integers(max(1, big // (2 * n_other)), min(T, max(1, big))))) for _ in range(n_other)]
+    nc = 1 + n_other
+    rows = [[L] + ([-1] if neg else [1]) + [0] * n_other,            # forces x to v
+            [b0, c] + od]
+    for _ in range(draw(st.integers(0, 2))):
+        r = [draw(st.integers(-2, 2)) for _ in range(nc)]
+        r[0] = 0 if draw(st.booleans()) else r[0]
+        rows.append([draw(st.integers(-2, 1))] + r)
+    perm = list(draw(st.permutations(range(nc))))
+    rows = [[r[0]] + [r[1 + j] for j in perm] for r in rows]
+    bounds = [[xb] + ob][0]
+    bounds = [bounds[j] for j in perm]
+    rows = list(draw(st.permutations(rows)))
+    ids = list(draw(st.permutations(COL_IDS)))[:nc]
+    return {"m": rows, "vars": [[i, lo, hi] for i, (lo, hi) in zip(ids, bounds)], "index": None, "guard": 4096, "dtype": dtype}
+
+
+@st.composite
+def exact_division_case(draw):
+    """rows whose tightened bound is an EXACT quotient: a*x + others >= b with b chosen so that (b - max(others)) / a is an
+    integer inside x's declared range, for every coefficient magnitude 2..130 and both signs (a float short cut such as
+    multiplying by 1/a is off by one ulp for some of them)"""
+    a_abs = draw(st.one_of(st.integers(2, 130), st.sampled_from([49, 75, 77, 91, 93, 98, 99, 103, 105, 107])))
+    a = a_abs * draw(st.sampled_from([-1, -1, 1]))
+    xb = draw(st.sampled_from([(0, 1), (0, 5), (-10, 10), (0, 20), (-3, 3), (1, 16)]))
+    n_other = draw(st.integers(0, 2))
+    ob = [draw(st.sampled_from([(0, 1), (0, 1), (0, 3), (-2, 2)])) for _ in range(n_other)]
+    oc = [draw(st.sampled_from([1, 2, -1, 3, -2, 7])) for _ in range(n_other)]
+    omax = sum(max(cc * lo, cc * hi) for cc, (lo, hi) in zip(oc, ob))
+    q = draw(st.integers(xb[0], xb[1]))
+    b = a * q + omax                  # x <= q (a < 0) resp. x >= q (a > 0), exactly
+    rows = [[b, a] + oc]
+    nc = 1 + n_other
+    for _ in range(draw(st.integers(0, 2))):
+        r = [draw(st.integers(-1, 1)) for _ in range(nc)]
+        rows.append([draw(st.integers(-3, 0))] + r)
+    perm = list(draw(st.permutations(range(nc))))
+    rows = [[r[0]] + [r[1 + j] for j in perm] for r in rows]
+    bounds = [[xb] + ob][0]
+    bounds = [bounds[j] for j in perm]
+    rows = list(draw(st.permutations(rows)))
+    ids = list(draw(st.permutations(COL_IDS)))[:nc]
+    return {"m": rows, "vars": [[i, lo, hi] for i, (lo, hi) in zip(ids, bounds)], "index": None, "guard": 4096}
 
 
 @st.composite
